@@ -35,6 +35,16 @@ package types
 //@   trusted
 //@   ensures true
 
+// What phase one writes for a text column is text - whatever Go type the row scanner delivered it in
+// ([]byte, or sql.RawBytes for the column types the scanner has no case for: MEDIUMTEXT, LONGTEXT,
+// ENUM, SET ...): encoding/json writes a byte slice as base64, which the decoder of a text column
+// keeps as the column's text.
+//@ func (*ColumnImage).MarshalJSON
+//@   prop C08 C01
+//@   requires c != nil
+//@   at call Marshal#1: assert text-is-written-as-text: c.Value != nil && (c.ColumnType == JDBCTypeChar || c.ColumnType == JDBCTypeVarchar || c.ColumnType == JDBCTypeLongVarchar) && (isT(c.Value, []byte) || isT(c.Value, sql.RawBytes)) ==> isT(arg_v, *columnImageAlias) && isT(arg_v.(*columnImageAlias).Value, string)
+//@   may_panic
+
 // Numbers: phase one writes an integer column value as its decimal text; ufb("decimal.is_integer", n)
 // says that the json.Number n is the decimal text of an integer of the int64 range, and
 // ufi("decimal.value", n) is that integer. Assumed of encoding/json (strconv underneath): Int64 reads
